@@ -577,7 +577,7 @@ class Item:
     def _closure_after(self, pos):
         """text[pos] == '(' of `.adapter(|p| body)`: returns (param, body_start, body_end, close)"""
         close = match_brace(self.m, pos, "(", ")")
-        mo = re.match(r"\(\s*\|\s*([A-Za-z_&][A-Za-z0-9_ &]*)\|\s*", self.text[pos:close])
+        mo = re.match(r"\(\s*\|\s*([A-Za-z_&][A-Za-z0-9_ &]*|\([A-Za-z0-9_ ,&]*\)\s*)\|\s*", self.text[pos:close])
         if not mo:
             raise Undecided("R3: closure shape not recognised at %s:%d" % (self.relpath, self.line_of(pos)))
         return mo.group(1).strip(), pos + mo.end(), close, close
@@ -759,8 +759,14 @@ class Item:
         if self.text[bs] != "{" or match_brace(self.m, bs) is None or self.text[match_brace(self.m, bs) + 1:be].strip():
             raise Undecided("R3 lift-filter-map: closure body is not a block at %s:%d" % (self.relpath, self.line_of(bs)))
         pname = pdecl.split(":")[0].strip()
-        if p != pname:
+        if re.sub(r"\s+", "", p) != re.sub(r"\s+", "", pname):
             raise Undecided("R3 lift-filter-map: closure parameter is `%s`, liftparams says `%s`" % (p, pname))
+        destructure = ""
+        if pname.startswith("("):
+            # a tuple pattern: the lifted fn takes the tuple and destructures it first (what a pattern parameter means)
+            destructure = "let %s = vx_item; " % pname
+            pdecl = "vx_item:" + pdecl.split(":", 1)[1]
+            pname = "vx_item"
         s0 = self._stmt_start(bo + h.start())
         semi = self.m.find(";", close)
         if not re.match(r"\s*\.\s*collect\s*\(\s*\)\s*$", self.text[close + 1:semi]):
@@ -801,7 +807,9 @@ class Item:
             body = "".join(out)
             mbody = mask(body)
         params = ", ".join([pdecl] + ["%s: &mut %s" % (c.split(":")[0].strip(), c.split(":", 1)[1].strip()) for c in capl])
-        lifted = "fn vx_lifted_%s(%s) -> (vx_r: %s)\n/*+vx*/%s/*-vx*/\n%s\n\n  " % (fn, params, rty, contract, body)
+        if destructure:
+            body = "{ " + destructure + body + " }"
+        lifted = "fn vx_lifted_%s%s(%s) -> (vx_r: %s)\n/*+vx*/%s/*-vx*/\n%s\n\n  " % (fn, getattr(self, "lift_generics", {}).get(fn, ""), params, rty, contract, body)
         fstart = self._stmt_start(k0)
         self.rewrite(fstart, fstart, lifted, "R3-lift-filter-map" + r4note)
         args_ = ", ".join([pname] + ["&mut %s" % c.split(":")[0].strip() for c in capl])
@@ -1244,6 +1252,10 @@ def build_unit(unit_path, repo=REPO):
                 # liftparams <fn> "<closure parameter: name: Type>" "<captured mutable variables: name: Type, ...>" "<result type>" "<call prefix>" <<< contract of the lifted fn >>>
                 it.lift = getattr(it, "lift", {})
                 it.lift[args[0]] = (args[1], args[2], args[3], args[4] if len(args) > 4 else "", payload or "")
+            elif name == "liftgenerics":
+                # liftgenerics <fn> "<'a, T: Bound>": generic parameters of the lifted fn
+                it.lift_generics = getattr(it, "lift_generics", {})
+                it.lift_generics[args[0]] = args[1]
             elif name == "liftR4":
                 # liftR4 <fn> "<old>" "<new>": an R4 redirection applied inside the closure body that lift-filter-map lifts
                 it.lift_r4 = getattr(it, "lift_r4", {})
